@@ -329,6 +329,51 @@ def build_obligation(inst):
             return [(z3.And(*[g_ == e_ for g_, e_ in zip(got, exp)]) if got else z3.BoolVal(True), None)]
         return ob
 
+    if kind in ("opstack", "opcat"):
+        # find_domain of ops.stack(parts, dim) / ops.cat(parts, axis): declared shape == numpy's, for unbounded sizes
+        _, rank, nparts, dim = inst
+
+        def ob(mk):
+            import z3
+            if kind == "opstack":
+                shp = tuple(mk.int("a%d" % i, 1, None) for i in range(rank))
+                shapes = [shp] * nparts
+            else:
+                base = [mk.int("a%d" % i, 1, None) for i in range(rank)]
+                shapes = []
+                for p_ in range(nparts):
+                    sh = list(base)
+                    sh[dim % rank] = mk.int("c%d" % p_, 1, None)
+                    shapes.append(tuple(sh))
+            op = ops.stack if kind == "opstack" else ops.cat
+            opi = type(op)(dim) if kind == "opstack" else type(op)(dim)
+            if not mk.symbolic:
+                from funsor.domains import Reals
+                arrs = [np.zeros(sh) for sh in shapes]
+                real = (np.stack(arrs, dim) if kind == "opstack" else np.concatenate(arrs, dim)).shape
+                try:
+                    decl = find_domain(opi, tuple(Reals[sh] for sh in shapes)).shape
+                except (AssertionError, ValueError):
+                    return [(True, None)]
+                return [(bool(tuple(decl) == tuple(real)), None)]
+            fn = rebound(D._find_domain_stack if kind == "opstack" else D._find_domain_cat)
+            try:
+                out = fn(opi, tuple(ArrayStub("real", sh) for sh in shapes))
+            except (AssertionError, ValueError) as e:
+                raise Decline(str(e))
+            if kind == "opstack":
+                d = dim % (rank + 1)
+                exp = [z(x) for x in shapes[0][:d]] + [z3.IntVal(nparts)] + [z(x) for x in shapes[0][d:]]
+            else:
+                d = dim % rank
+                exp = [z(x) for x in shapes[0]]
+                exp[d] = sum((z(sh[d]) for sh in shapes[1:]), z(shapes[0][d]))
+            got = [z(g_) for g_ in out.shape]
+            if len(got) != len(exp):
+                return [(z3.BoolVal(False), None)]
+            return [(z3.And(*[g_ == e_ for g_, e_ in zip(got, exp)]) if got else z3.BoolVal(True), None)]
+        return ob
+
     if kind == "getslice_pair":
         # two getslice terms alive at the same time (op instances are cached by a key derived from the index): the
         # declared shape of each must still be numpy's.  Concrete structural check (no symbolic part).
@@ -467,6 +512,13 @@ def instances(tier, seed):
     for r1 in (1, 2, 3):
         for r2 in (1, 2, 3):
             out.append(("matmul", r1, r2))
+    for rank in (0, 1, 2, 3):
+        for nparts in (1, 2, 3):
+            for dim in range(-rank - 1, rank + 1):
+                out.append(("opstack", rank, nparts, dim))
+            if rank >= 1:
+                for dim in range(-rank, rank):
+                    out.append(("opcat", rank, nparts, dim))
     out.append(("slice_size",))
     idxs = [slice(1, 3), (1, 3, None), (slice(None), None), (None, slice(None)), slice(None), (None, None, None), (0, slice(None)), (0, None, None),
             (slice(0, 2), 1), (0, 2, 1), (Ellipsis, 0), (slice(None), slice(None), 0), 2, (2,), (slice(2, None, None),)]
